@@ -54,5 +54,7 @@ Coverage == (AtRest /\ ndead = 0) => Live = want
 \* (nothing is watched twice: the ensemble is a mapping from pairs to tasks)
 EventuallyCovered == <>[](ndead = 0 => Live = want)
 NoFamily == ~(AtRest /\ ndead > 0 /\ Live # want)
+\* the state without the bookkeeping counter: with it as VIEW, TLC covers ANY number of revisions (the rest is finite)
+NoCount == <<want, notified, waiting, pc, tasks, redundant, ndead>>
 Family_F15F25 == AtRest /\ ndead > 0 /\ Live # want
 =============================================================================
